@@ -27,15 +27,17 @@ VARIABLES l,
           ctxOf,      \* [id -> context token seen by the request modifier]
           ctxUsed,    \* context tokens seen on any connection of this file
           sessOf,     \* session token of this connection ("" until known)
-          sessUsed    \* session tokens of earlier connections
-tvars == <<vars, l, ctxOf, ctxUsed, sessOf, sessUsed>>
-aux == <<ctxOf, ctxUsed, sessOf, sessUsed>>
+          sessUsed,   \* session tokens of earlier connections
+          expSec      \* C05: "na" | "yes" | "no": are requests decrypted from this connection
+                      \*      (other than the CONNECT itself) expected to be secure
+tvars == <<vars, l, ctxOf, ctxUsed, sessOf, sessUsed, expSec>>
+aux == <<ctxOf, ctxUsed, sessOf, sessUsed, expSec>>
 
 Ev == Trace[l]
 Is(e) == l <= Len(Trace) /\ Trace[l].ev = e
 Consume == l' = l + 1
 
-TInit == /\ Init /\ l = 1 /\ ctxOf = [i \in {} |-> ""] /\ ctxUsed = {} /\ sessOf = "" /\ sessUsed = {}
+TInit == /\ Init /\ l = 1 /\ ctxOf = [i \in {} |-> ""] /\ ctxUsed = {} /\ sessOf = "" /\ sessUsed = {} /\ expSec = "na"
          /\ TLCSet(1, 0)
 
 NewConn == /\ Is("newconn") /\ Consume
@@ -46,6 +48,7 @@ NewConn == /\ Is("newconn") /\ Consume
            /\ closing' = FALSE /\ hjDone' = FALSE
            /\ ctxOf' = [i \in {} |-> ""] /\ sessOf' = ""
            /\ sessUsed' = IF sessOf = "" THEN sessUsed ELSE sessUsed \cup {sessOf}
+           /\ expSec' = IF "secure" \in DOMAIN Ev THEN (IF Ev.secure THEN "yes" ELSE "no") ELSE "na"
            /\ UNCHANGED ctxUsed
 
 TCsend == /\ Is("csend") /\ Consume /\ Ev.i = sent + 1 /\ ClientSend(Ev.close, Ev.connect) /\ UNCHANGED aux
@@ -56,22 +59,28 @@ TReqMod == /\ Is("reqmod") /\ Consume /\ Ev.i = cur /\ ReqMod(Ev.b)
            /\ Ev.ctx \notin ctxUsed
            /\ ctxOf' = Ev.i :> Ev.ctx @@ ctxOf /\ ctxUsed' = ctxUsed \cup {Ev.ctx}
            /\ Ev.sess \notin sessUsed /\ (sessOf = "" \/ sessOf = Ev.sess)
-           /\ sessOf' = Ev.sess /\ UNCHANGED sessUsed
+           /\ sessOf' = Ev.sess /\ UNCHANGED <<sessUsed, expSec>>
+           \* C05: what the modifier is shown for a request decrypted from the connection
+           /\ (expSec # "na" /\ ~rq[Ev.i].connect) =>
+                 /\ Ev.secure = (expSec = "yes") /\ Ev.tls = (expSec = "yes")
+                 /\ Ev.scheme = (IF expSec = "yes" THEN "https" ELSE "http")
+                 /\ Ev.host = "origin.test"
 TResMod == /\ Is("resmod") /\ Consume /\ Ev.i = cur /\ ResMod(Ev.b)
            /\ Ev.same                                   \* res.Request is the request the request modifier saw
            /\ Ev.i \in DOMAIN ctxOf /\ Ev.ctx = ctxOf[Ev.i] /\ Ev.sess = sessOf
            /\ UNCHANGED aux
 \* without installed modifiers both run as pass-through, unseen
-SReqMod == /\ ~Mods /\ ReqMod("pass") /\ UNCHANGED <<l, ctxOf, ctxUsed, sessOf, sessUsed>>
-SResMod == /\ ~Mods /\ ResMod("pass") /\ UNCHANGED <<l, ctxOf, ctxUsed, sessOf, sessUsed>>
+SReqMod == /\ ~Mods /\ ReqMod("pass") /\ UNCHANGED <<l, ctxOf, ctxUsed, sessOf, sessUsed, expSec>>
+SResMod == /\ ~Mods /\ ResMod("pass") /\ UNCHANGED <<l, ctxOf, ctxUsed, sessOf, sessUsed, expSec>>
 
 \* the origin saw the request (faithfully) and chose its behaviour
 TOresp == /\ Is("oresp") /\ Consume /\ Ev.i = cur /\ Ev.ok
+          /\ expSec # "na" => Ev.tls = (expSec = "yes")      \* C05: never forwarded in cleartext
           /\ \/ Ev.k \in {"ok", "trunc"} /\ RoundTrip(Ev.k, Ev.close)
              \/ Ev.k = "502" /\ RoundTripReached
           /\ UNCHANGED aux
 \* a refused dial never reaches any origin
-SRefused == /\ RoundTrip("refuse", FALSE) /\ UNCHANGED <<l, ctxOf, ctxUsed, sessOf, sessUsed>>
+SRefused == /\ RoundTrip("refuse", FALSE) /\ UNCHANGED <<l, ctxOf, ctxUsed, sessOf, sessUsed, expSec>>
 
 TCrecv == /\ Is("crecv") /\ Consume /\ Ev.ok
           /\ p2c # <<>>
@@ -82,17 +91,21 @@ TCrecv == /\ Is("crecv") /\ Consume /\ Ev.ok
 
 \* the CONNECT target was dialled (blind mode) or the proxy answers itself (MITM)
 TDial == \/ /\ Is("dial") /\ Consume /\ ConnectDial(Ev.ok) /\ UNCHANGED aux
-         \/ /\ ConnectMode = "mitm" /\ ConnectDial(TRUE) /\ UNCHANGED <<l, ctxOf, ctxUsed, sessOf, sessUsed>>
+         \/ /\ ConnectMode = "mitm" /\ ConnectDial(TRUE) /\ UNCHANGED <<l, ctxOf, ctxUsed, sessOf, sessUsed, expSec>>
+\* the exchange whose modifier hijacked the session
+HjId == CHOOSE i \in (DOMAIN rqb \cup DOMAIN rsb) :
+          (i \in DOMAIN rqb /\ rqb[i] \in Hj) \/ (i \in DOMAIN rsb /\ rsb[i] \in Hj)
 \* bytes written by the hijacker itself reached the client: fine once (and only once) hijacked
 \* (the hijacker may already have returned when the client gets to read them)
 THjRecv == /\ Is("hjrecv") /\ Consume /\ (ps = "hijacked" \/ hjDone)
+           /\ (expSec = "yes" /\ ~rq[HjId].connect) => ("tls" \in DOMAIN Ev /\ Ev.tls)   \* C05: the hijacker got the decrypted connection
            /\ \A j \in DOMAIN crecv : crecv[j].t # "eof"
            /\ UNCHANGED vars /\ UNCHANGED aux
 
 THjDone == /\ Is("hjdone") /\ Consume /\ HijackerDone /\ UNCHANGED aux
 TCloseCalled == /\ Is("closecalled") /\ Consume /\ CloseCalled /\ UNCHANGED aux
 
-Silent(A) == A /\ UNCHANGED <<l, ctxOf, ctxUsed, sessOf, sessUsed>>
+Silent(A) == A /\ UNCHANGED <<l, ctxOf, ctxUsed, sessOf, sessUsed, expSec>>
 
 \* quiescence: nothing is in flight and nothing more can happen without new input
 Settled == /\ p2c = <<>>
